@@ -28,7 +28,7 @@ def cases(tier, rng):
     mods = []
     for fx, fy, fz in itertools.product([False, True], repeat=3):
         mods.append(('negate', '(m_negate %s %s %s)' % (b(fx), b(fy), b(fz)), F(0)))
-    for f in [(F(-2), F(1, 2), F(3)), (F(0), F(3), F(-2)), (F(1, 2), F(1, 2), F(1, 2)), (F(3), F(0), F(1, 2)), (F(1), F(-1), F(1, 4))]:
+    for f in [(F(-2), F(1, 2), F(3)), (F(0), F(3), F(-2)), (F(1, 2), F(1, 2), F(1, 2)), (F(3), F(0), F(1, 2)), (F(1), F(-1), F(1, 4)), (F(1), F(1), F(1))]:   # the neutral factor too: a bool still becomes 1D
         mods.append(('scale', '(m_scale %s %s %s)' % tuple(q(x) for x in f), F(0)))
     for k in ['YXZ', 'ZYX', 'XZY', 'YZX', 'ZXY']:
         mods.append(('swizzle', '(m_swizzle %s)' % k, F(0)))
@@ -98,7 +98,7 @@ def cases(tier, rng):
 def app_cases(tier, rng):
     from scen import Ids, action, bind, spec, sop, spawn, frame, raw, scenario, key, mbutton, paxis, motion, pad, REBUILD, c_script
     MODS = (['(m_negate %s %s %s)' % (b(x), b(y), b(z)) for x in (0, 1) for y in (0, 1) for z in (0, 1)] +
-            ['(m_scale 1/2 3/1 -2/1)', '(m_scale 0/1 1/1 1/2)'] + ['(m_swizzle %s)' % k for k in ['YXZ', 'ZYX', 'XZY', 'YZX', 'ZXY']] +
+            ['(m_scale 1/2 3/1 -2/1)', '(m_scale 0/1 1/1 1/2)', '(m_scale 1/1 1/1 1/1)'] + ['(m_swizzle %s)' % k for k in ['YXZ', 'ZYX', 'XZY', 'YZX', 'ZXY']] +
             ['(m_deadzone Axial 1/4 3/4)', '(m_deadzone Axial 0/1 1/1)', '(m_exp 2 2 2)', '(m_exp 1 3 1)', 'm_delta_scale', '(m_delta_lerp 4/1)', '(m_delta_lerp 8/1)'])   # with deltas 1/8, 1/4: alpha in {1/2, 1, clamped}, exact in f32 over the run
     for _ in range(1200 if tier == 'thorough' else 100):
         ids = Ids()
@@ -143,6 +143,7 @@ CLAUSES = {1: 'Negate does not flip exactly the selected axes', 2: 'Scale is not
            4: 'axial DeadZone: non-zero inside the lower threshold, magnitude above one, or sign lost', 5: 'radial DeadZone: non-zero inside the lower threshold, magnitude above one, or direction lost',
            6: 'ExponentialCurve: sign lost or 0/+-1 not fixed', 7: 'DeltaScale is not value * delta', 8: 'axial DeadZone is not monotone in the magnitude',
            9: 'DeltaLerp output not between its previous output and the input, or not snapped when close', 10: 'AccumulateBy is not "running sum while Fired, input otherwise, unchanged if absent"',
+           11: 'a stateful modifier (DeltaLerp, AccumulateBy) of an evaluated instance was not applied in a frame although it sits at action level or the input of its binding was inactive in that frame (so the binding cannot be one that is still ignored): the running sum / the previous output is not what the value sequence gives',
            18: 'panic', 19: 'malformed output', 20: 'zero input mapped to non-zero output'}
 def describe(stage, clause): return CLAUSES.get(clause, 'clause %d' % clause)
 def matches_known(k, case, verdict): return False
